@@ -481,7 +481,7 @@ def tag(*args):  # noqa: C901
 
         for key, value in attributes.items():
             if isinstance(value, Attribute):
-                result[value._qualified_name] = value.value
+                result[value.namespace, value.local_name] = value.value
             elif isinstance(key, str):
                 result["", key] = value
             elif isinstance(key, tuple):
@@ -622,6 +622,7 @@ class Attribute(_StringMixin):
         if replaced is not None:
             # an attribute with the new name is superseded
             replaced._detached_value = replaced.value
+            replaced._qualified_name = (replaced.namespace, replaced.local_name)
             replaced._attributes = None
         attributes[(namespace, name)] = self.value
         self._qualified_name = (namespace, name)
@@ -641,7 +642,11 @@ class Attribute(_StringMixin):
     @property
     def namespace(self) -> str:
         """The attribute's namespace"""
-        return self._qualified_name[0]
+        namespace = self._qualified_name[0]
+        if not namespace and self._attributes is not None:
+            # as it is yielded when iterating over the node's attributes
+            return self._attributes._node._etree_obj.nsmap.get(None, "")
+        return namespace
 
     @namespace.setter
     def namespace(self, namespace: str):
@@ -720,6 +725,7 @@ class TagAttributes(MutableMapping):
         attribute = self[qualified_name]
         assert attribute is not None
         attribute._detached_value = attribute.value
+        attribute._qualified_name = (attribute.namespace, attribute.local_name)
         key = self._etree_key(qualified_name)
         del self._etree_attrib[key]
         del self._attributes[key]
@@ -763,7 +769,7 @@ class TagAttributes(MutableMapping):
             key = self._etree_key(qualified_name)
             result = self._attributes.get(key)
             if result is None:
-                result = Attribute(self, self.__reported_name(qualified_name))
+                result = Attribute(self, qualified_name)
                 self._attributes[key] = result
             return result
         else:
@@ -790,19 +796,12 @@ class TagAttributes(MutableMapping):
             value = value.value
         self._etree_attrib[key] = value
         if key not in self._attributes:
-            self._attributes[key] = Attribute(
-                self, self.__reported_name(qualified_name)
-            )
+            self._attributes[key] = Attribute(self, qualified_name)
 
     def __str__(self):
         return str(self.as_dict_with_strings())
 
     __repr__ = __str__
-
-    def __reported_name(self, qualified_name: QualifiedName) -> QualifiedName:
-        # the name as it is yielded when iterating
-        namespace, name = qualified_name
-        return namespace or self._node._etree_obj.nsmap.get(None, ""), name
 
     def __resolve_accessor(self, item: AttributeAccessor) -> QualifiedName:
         if isinstance(item, str):
